@@ -145,8 +145,8 @@ def check_C05(ctx):
             meta[id(c)] = (d, hooks)
     nex = len(cases)
     # random deeper paths, with values 0..255 for exits and every policy
-    for _ in range(ctx.scale(1500, 20000)):
-        d = ctx.rng.randint(1, 6)
+    for k_ in range(ctx.scale(1500, 20000)):
+        d = ctx.rng.randint(1, 6) if k_ % 25 else ctx.rng.choice([8, 12, 17])     # a few much deeper paths
         hooks = [gen.gen_hook(ctx.rng) for _ in range(2 * d + 1)]
         if hooks[d] is None:
             hooks[d] = {"k": "ret"}
@@ -413,6 +413,31 @@ def check_C01(ctx):
             for n in (1, 2, 3):
                 for t in itertools.product(["--both", "--all", "-a", "-b", "x", "-ab", "--both=true", "-b=true"], repeat=n):
                     blank.append({"op": "run", "env": {}, "version": None, "root": gen.mkcmd("app", decls=copy.deepcopy(sd2), spec=sp, policy=0), "argv": list(t)})
+    # long command lines (20-60 tokens) on specs whose search stays linear
+    ld = [gen.mkopt("custom", "a", custom=dict(gen.CUSTOM_FLAG)), gen.mkopt("strings", "o out"), gen.mkopt("custom", "v", custom=dict(gen.CUSTOM_FLAG)),
+          gen.mkarg("strings", "X"), gen.mkarg("strings", "Y")]
+    for sp in ("[OPTIONS] X...", "-a... -o... X", "X... Y", "[OPTIONS] X [Y...]", "(-a -v)... X...", ""):
+        for _ in range(ctx.scale(12, 120)):
+            n = ctx.rng.randint(20, 60)
+            toks = []
+            for _ in range(n):
+                toks += ctx.rng.choice([["-a"], ["-o", "v"], ["--out=w"], ["-v"], ["-av"], ["-aov"], ["p"], ["q"], ["-ox"]])
+            ctx.rng.shuffle(toks) if ctx.rng.random() < 0.3 else None
+            if ctx.rng.random() < 0.6:      # options first, then positionals: mostly sentences
+                toks = [t for t in toks if t.startswith("-") or t in ("v",)] and toks
+                opts_ = []
+                i_ = 0
+                while i_ < len(toks):
+                    if toks[i_] == "-o" and i_ + 1 < len(toks):
+                        opts_ += toks[i_:i_ + 2]
+                        i_ += 2
+                    elif toks[i_].startswith("-"):
+                        opts_.append(toks[i_])
+                        i_ += 1
+                    else:
+                        i_ += 1
+                toks = opts_ + [t for t in toks if not t.startswith("-") and t not in ("v",)][:ctx.rng.randint(1, 8)]
+            blank.append({"op": "run", "env": {}, "version": None, "root": gen.mkcmd("app", decls=copy.deepcopy(ld), spec=sp, policy=0), "argv": toks})
     number(blank, start=len(cases) + len(sc))
     res3 = correspond(ctx, blank, fields, "specs of blanks and padded specs")
     st3 = judge_sentences(ctx, blank, res3, "C01")
